@@ -177,7 +177,7 @@ func runSchedule(c *hx.Ctx, name, format string, data, plain []byte, ks []int, m
 
 // C13: output independent of read sizes and source fragmentation; EOF stable.
 func C13(c *hx.Ctx) {
-	c.Rule = "all Read-length schedules of length 5 (thorough 6) over {0,1,2,3,64} generated by TLC (IoGen, where IoContract.ReadSchedule is also checked exhaustively) x source fragmentations {whole, 1 byte, 1-3 bytes, half buffers, data together with EOF} x small structured streams of the three formats (multi-block xz, two xz streams with padding, LZMA2 with raw and reset chunks, .lzma in three termination modes); plus seeded random schedules on large streams; every (k,n,err) is judged by the contract and a capped sample of the recorded schedules is validated by TLC (TraceIo); non-trivial = schedule containing a zero-length or 1-byte read"
+	c.Rule = "all Read-length schedules of length 5 (thorough 6) over {0,1,2,3,64} generated by TLC (IoGen, where IoContract.ReadSchedule is also checked exhaustively) x source fragmentations {whole, 1 byte, 1-3 bytes, half buffers, data together with EOF} x small structured streams of the three formats (multi-block xz, two xz streams with padding, LZMA2 with raw and reset chunks, .lzma in three termination modes); plus seeded random schedules on large streams; every (k,n,err) is judged by the contract and a capped sample of the recorded schedules is validated by TLC (TraceIo); non-trivial = schedule containing a zero-length or 1-byte read; plus reference-written blocks with size fields, 9-20 kB streams read with a 4 KiB window in pieces of 1/7/100/8192/70000 bytes with a zero-length read after every piece, stored chunks longer than the window"
 	c.Assumptions = []string{"TLC (IoContract, IoGen, TraceIo)", "plaintexts from the reference decoder"}
 	c.Exhaustive = true
 	cfg := fmt.Sprintf("SPECIFICATION GSpec\nCONSTANTS Lens = {0, 1, 2, 3, 64}\n SchedLen = %d\n MaxK = 48\n N0 = 6\nINVARIANTS PrefixDelivered EndedMeansAll EmitSched\nCHECK_DEADLOCK FALSE\n", c.Pick(5, 6))
